@@ -325,7 +325,14 @@ struct Config {
 	Menu menu0;      // menu at depth 0 (root)
 	Menu menu;       // menu deeper
 	int full_call_depth = 1;  // states with hist.size() < this use menu0
+	bool adopt_firsts = false;  // C19: the index base of a RESULT is not documented: the model adopts the reported first of every non-empty dimension and checks elements position-wise
 };
+template<class V> void adopt_firsts_from(V const& v, MView& m) {
+	auto xs = v.extensions();
+	auto firsts = std::apply([](auto... e) { return std::vector<idx>{static_cast<idx>(e.first())...}; }, xs.base());
+	auto lens = std::apply([](auto... e) { return std::vector<idx>{static_cast<idx>(e.size())...}; }, xs.base());
+	for(std::size_t j = 0; j < m.d.size() && j < firsts.size(); ++j) { if(lens[j] > 0) { m.d[j].first = firsts[j]; } else { m.d[j].first = 0; } }
+}
 struct Stats { long states = 0, transitions = 0, completed_depth = -1; bool capped = false; };
 
 // visit(v, model, hist) -> bool : full oracle on a NEW state; return false to mark the state violating (not expanded).
@@ -361,6 +368,7 @@ Stats bfs(Root& root, MView const& m0, Config const& cfg, std::set<std::string> 
 				apply1(v, o, [&](auto&& w) {
 					executed = true; ++st.transitions;
 					m2.ro = is_ro_v<decltype(w)>;
+					if(cfg.adopt_firsts) { adopt_firsts_from(w, m2); }
 					auto k = key_of(m2);
 					if(!seen.insert(k).second) { return; }
 					++st.states;
